@@ -5,6 +5,7 @@ package sftp
 import (
 	"bytes"
 	"io"
+	"os"
 )
 
 //verif:atomic-invisible
@@ -91,6 +92,74 @@ func vh_C01_readfrom_conc() {
 		n, err = x.f.ReadFrom(&io.LimitedReader{R: &vPlainReader{vReader{data: b}}, N: int64(l)})
 	case 3:
 		n, err = x.f.ReadFrom(&vPlainReader{vReader{data: b}}) // no size known: sequential
+	}
+	vAssert(err == nil && int(n) == l, "whole source consumed")
+	vAssert(x.f.offset == int64(off+l), "offset advanced by the bytes written")
+	vCheckWritten(x, content, b, off)
+	vEmit("n", n)
+}
+
+// every kind of source ReadFrom knows how to size up - Len(), Size(), Stat()
+// (also failing), *io.LimitedReader - and sources whose announced size is wrong
+// in either direction: the size only picks the degree of concurrency, the bytes
+// written are always exactly the bytes the source delivers
+type vSizedSrc struct {
+	vReader
+	n int64
+}
+
+func (s *vSizedSrc) Size() int64 { return s.n }
+
+type vLenSrc struct {
+	vReader
+	n int
+}
+
+func (s *vLenSrc) Len() int { return s.n }
+
+type vStatSrc struct {
+	vReader
+	n    int64
+	fail bool
+}
+
+func (s *vStatSrc) Stat() (os.FileInfo, error) {
+	if s.fail {
+		return nil, os.ErrInvalid
+	}
+	return &vFI{name: "s", size: s.n}, nil
+}
+
+//verif:atomic-invisible
+func vh_C01_readfrom_source_kinds() {
+	p := 1
+	content := vNondetArray(1)
+	l := 2
+	off := vChoice(2)
+	b := vNondetArray(l)
+	x := vNewXfer(content, vNondetBool(), false, p, 2, true, true)
+	defer vPeerDone(x.c)
+	x.f.offset = int64(off)
+	announced := int64(vChoice(5)) - 1 // -1, 0, 1 (too small), 2 (right), 3 (too large)
+	var n int64
+	var err error
+	switch vChoice(4) {
+	case 0:
+		n, err = x.f.ReadFrom(&vSizedSrc{vReader{data: b}, announced})
+	case 1:
+		n, err = x.f.ReadFrom(&vLenSrc{vReader{data: b}, int(announced)})
+	case 2:
+		n, err = x.f.ReadFrom(&vStatSrc{vReader{data: b}, announced, vNondetBool()})
+	case 3:
+		if announced < 0 {
+			announced = 0
+		}
+		// a LimitedReader really limits: at most N bytes are the source
+		n, err = x.f.ReadFrom(&io.LimitedReader{R: &vPlainReader{vReader{data: b}}, N: announced})
+		if announced < int64(l) {
+			l = int(announced)
+			b = b[:l]
+		}
 	}
 	vAssert(err == nil && int(n) == l, "whole source consumed")
 	vAssert(x.f.offset == int64(off+l), "offset advanced by the bytes written")
